@@ -14,25 +14,30 @@ import RwsDriver.Json
 import RwsDriver.Query
 import RwsDriver.Multipart
 import RwsDriver.ResponseM
+import RwsDriver.Serve
 open RwsDriver
 
 def allOps : List (String × Op) := base64Ops ++ corsOps ++ rangeMOps ++ poolOps ++ requestOps ++ configOps ++ mimeOps ++ jsonOps ++ queryOps ++ multipartOps ++ responseOps
 
-def runLine (line : String) : String :=
+def runLine (st : ServeState) (line : String) : ServeState × String :=
   match (line.trimAscii.toString.splitOn " ").filter (· ≠ "") with
-  | [] => "bad-op"
+  | [] => (st, "bad-op")
   | op :: args =>
-    match allOps.lookup op with
-    | some f => f args
-    | none => "bad-op"
+    match serveStep st op args with
+    | some r => r
+    | none =>
+      match allOps.lookup op with
+      | some f => (st, f args)
+      | none => (st, "bad-op")
 
-partial def loop (h : IO.FS.Stream) (out : IO.FS.Stream) : IO Unit := do
+partial def loop (h : IO.FS.Stream) (out : IO.FS.Stream) (st : ServeState) : IO Unit := do
   let line ← h.getLine
   if line.isEmpty then return ()
-  out.putStrLn (runLine line)
-  loop h out
+  let (st', res) := runLine st line
+  out.putStrLn res
+  loop h out st'
 
 def main : IO Unit := do
   let out ← IO.getStdout
-  loop (← IO.getStdin) out
+  loop (← IO.getStdin) out ServeState.init
   out.flush
